@@ -101,7 +101,25 @@ func (g *aliasGen) value(depth int) interface{} {
 	}
 }
 
+// flatDoc: scalar id and scalar fields only (the shape a copy-avoiding fast
+// path would treat specially)
+func (g *aliasGen) flatDoc(withID bool) bson.D {
+	d := bson.D{}
+	if withID {
+		d = append(d, bson.E{Key: "_id", Value: int32(100 + g.r.intn(1000))})
+	}
+	for _, k := range []string{"a", "b", "c"} {
+		if g.r.chance(2, 3) {
+			d = append(d, bson.E{Key: k, Value: pick(g.r, []interface{}{int32(1), int64(2), "s", true, nil, float64(1.5)})})
+		}
+	}
+	return d
+}
+
 func (g *aliasGen) doc(withID bool) bson.D {
+	if g.r.chance(1, 4) {
+		return g.flatDoc(withID)
+	}
 	d := bson.D{}
 	if withID {
 		d = append(d, bson.E{Key: "_id", Value: g.containerID()})
@@ -278,9 +296,20 @@ func runAliasHistory(r *rng, st *oracleStats, add func(sig, what string, detail 
 			}
 			check("FindOneAndUpdate", []interface{}{f, u}, b, rs)
 		default:
+			insDoc := g.doc(true)
+			updFilter := bson.D{{Key: "_id", Value: g.containerID()}}
+			updDoc := bson.D{{Key: "$set", Value: bson.D{{Key: "a", Value: g.value(2)}}}}
+			repFilter := bson.D{{Key: "_id", Value: g.containerID()}}
+			repDoc := g.doc(false)
 			models := []mongo.WriteModel{
-				mongo.NewInsertOneModel().SetDocument(g.doc(true)),
-				mongo.NewUpdateOneModel().SetFilter(bson.D{{Key: "_id", Value: g.containerID()}}).SetUpdate(bson.D{{Key: "$set", Value: bson.D{{Key: "a", Value: g.value(2)}}}}).SetUpsert(true),
+				mongo.NewInsertOneModel().SetDocument(insDoc),
+				mongo.NewUpdateOneModel().SetFilter(updFilter).SetUpdate(updDoc).SetUpsert(true),
+				mongo.NewReplaceOneModel().SetFilter(repFilter).SetReplacement(repDoc).SetUpsert(true),
+			}
+			bulkArgs := []interface{}{insDoc, updFilter, updDoc, repFilter, repDoc}
+			var bulkBefore []string
+			for _, a := range bulkArgs {
+				bulkBefore = append(bulkBefore, marshalAny(a))
 			}
 			res, _ := coll.BulkWrite(ctx, models)
 			rs := map[string]interface{}{}
@@ -289,7 +318,7 @@ func runAliasHistory(r *rng, st *oracleStats, add func(sig, what string, detail 
 					rs[fmt.Sprintf("UpsertedIDs[%d]", k)] = v
 				}
 			}
-			check("BulkWrite", nil, nil, rs)
+			check("BulkWrite", bulkArgs, bulkBefore, rs)
 		}
 	}
 	// index specifications
